@@ -1,5 +1,6 @@
 import RlboxModel.Ptr
 import RlboxModel.Layout
+import RlboxModel.Props.C09
 /-!
 # C17 — Indexing a tainted fixed-size array is bounds-checked for every index type
 Property theorems only.
@@ -65,6 +66,21 @@ theorem C17_multi (idx : IntTy) (i j : Int) (n1 n2 s base a : Nat) (hw : idx.wf)
     · rw [e2, e1, Nat.add_mul, Nat.mul_assoc]; omega
     · have : n1 * n2 * s = n1 * (n2 * s) := Nat.mul_assoc _ _ _
       omega
+
+/-- An index that lives in sandbox memory (`arr[*p]`, a `tainted_volatile` integer) may be rewritten by the
+sandbox at any moment: whatever the adversary does and whenever, the access aborts or designates an element
+of the array -- never a neighbour -- because the value that is checked is the value that is used. -/
+theorem C17_volatile_index (adv : Snap.Adv) (s : Snap.St) (c n elSize : Nat) :
+    (Snap.run adv (Snap.idxVol c n elSize) s).1 = .abort ∨
+    ∃ i, i < n ∧ (Snap.run adv (Snap.idxVol c n elSize) s).1 = .addr (i * elSize) := by
+  unfold Snap.idxVol
+  rw [C09.run_bind]
+  generalize (Snap.run adv (Snap.readBytes c 4) s).1 = bs
+  generalize (Snap.run adv (Snap.readBytes c 4) s).2 = s'
+  by_cases h : decodeLE bs ≥ 2147483648 ∨ decodeLE bs ≥ n
+  · left; simp only [h, if_true]; rfl
+  · right; simp only [h, if_false]
+    exact ⟨decodeLE bs, by omega, rfl⟩
 
 /-- non-vacuity and the aliasing case: a 64-bit index equal to a valid index modulo 2^32 aborts -/
 example : indexArr ⟨true, 8, false⟩ 4294967297 3 1 0 = none := by decide
